@@ -24,6 +24,23 @@ def unit_configs(tier):
                     out.append(((fn, kind, b, take),
                                 dict(fn=fn, src=kind, n=n, b=b, take=take,
                                      bound=None if b**take <= 81 else 2)))
+    # large buffers (the library's default shuffle is 1000): only the default
+    # random answers, the read-ahead must still not depend on the length
+    for fn, kind in (("shuffle_buffer", "gen"),
+                     ("shuffle_buffer_async", "agen")):
+        for b in (64, 1000, 5000):
+            for n in (2 * b + 3, 4 * b + 1, None):
+                out.append(((fn, kind, b, 2),
+                            dict(fn=fn, src=kind, n=n, b=b, take=2, bound=0)))
+    for fn, kind in (("round_robin", "gen"), ("round_robin_async", "agen")):
+        for b in (64, 1000):
+            for rep in (3 * b, 6 * b):
+                out.append(((fn, kind, b, 2, "big"),
+                            dict(fn=fn, src=kind, inner=(1,) * rep, b=b,
+                                 take=2, bound=0)))
+            out.append(((fn, kind, b, 2, "big"),
+                        dict(fn=fn, src=kind, inner=(1,), b=b, take=2,
+                             bound=0, repeat_inner=True)))
     for fn, kind in (("round_robin", "gen"), ("round_robin_async", "agen")):
         for b in (1, 2, 3):
             for take in (1, 3):
@@ -237,6 +254,8 @@ def run(ctx):
         ctx.add(states=n_exec, transitions=n_tr,
                 traces_validated_against_impl=n_exec)
         pcfg = pool_configs(ctx.tier)
+        for _, c in pcfg:
+            c["max_seconds"] = 1500 if ctx.tier == "thorough" else 200
         res = list(ex.map(_explore_pool,
                           sorted(pcfg, key=lambda kc: c13.weight(kc[1]),
                                  reverse=True)))
